@@ -3,13 +3,14 @@ import os
 import re
 from framework import REPO, LEAN, sh
 
-TIE = ["Nsq.Tie.Guid"]
-PROPS = ["Nsq.Props.C12"]
+TIE = ["Nsq.Tie.Guid", "Nsq.Tie.GuidHex"]
+PROPS = ["Nsq.Props.C12", "Nsq.Props.C12Fn"]
 
 
 def run(ctx):
     ctx.trusted += [
-        "translator tools/go2lean (kind func) renders nsqd/guid.go NewGUID into Lean BitVec operations",
+        "translator tools/go2lean (kind func) renders nsqd/guid.go NewGUID into Lean BitVec operations; kind bytes "
+        "renders guid.Hex (byte stores, shifts, hex.Encode) into List UInt8 / BitVec operations",
         "Go memory model: guidFactory's mutex makes NewGUID one atomic step",
         "correspondence harness harness/e1/guid_test.go (white-box pre/post state of the real guidFactory)",
         "encoding/hex (modelled as two lower-case hex digits per byte; compared on random values)",
@@ -23,6 +24,7 @@ def run(ctx):
                 "single-goroutine Topic.GenerateID burst")
     # 1-2: regenerate, build, audit
     gen_ok, _ = ctx.gen("e1_codec")
+    ctx.gen("e1_guidhex")   # translated guid.Hex (kind bytes) for Nsq.Tie.GuidHex
     ok, log = ctx.lean_build(TIE + PROPS)
     if not ok:
         ctx.lean_obligation_failed("lake build " + " ".join(TIE + PROPS), log[-1500:])
